@@ -249,6 +249,33 @@ static __always_inline __u8 get_dhcp_msg_type(void *dhcp_base, void *data_end) {
 	return 0;
 }
 
+/* Extract the requested IP address (Option 50) when it directly follows the
+ * message type option - the layout DHCP clients use in SELECTING/INIT-REBOOT.
+ * Fixed positions only. Returns 0 if not found there (the caller then falls
+ * back to ciaddr, which RENEWING/REBINDING clients fill in).
+ */
+static __always_inline __u32 get_requested_ip(void *dhcp_base, void *data_end) {
+	__u8 *opts = (__u8 *)dhcp_base + 240;
+	__u32 ip = 0;
+
+	if ((void *)(opts + 12) > data_end)
+		return 0;
+
+	/* [53][1][type][50][4][ip] */
+	if (opts[0] == 53 && opts[3] == 50 && opts[4] == 4) {
+		__builtin_memcpy(&ip, opts + 5, 4);
+		return ip;
+	}
+
+	/* [pad][53][1][type][50][4][ip] */
+	if (opts[1] == 53 && opts[4] == 50 && opts[5] == 4) {
+		__builtin_memcpy(&ip, opts + 6, 4);
+		return ip;
+	}
+
+	return 0;
+}
+
 /* ========================================================================
  * Issue #56: Fixed-Position Circuit-ID Extraction
  *
@@ -713,6 +740,17 @@ int dhcp_fastpath_prog(struct xdp_md *ctx) {
 
 	/* Room for the reply options */
 	CHECK_BOUNDS_PASS(pkt.dhcp->options, pkt.data_end, MAX_DHCP_REPLY_OPTIONS_LEN);
+
+	/* A REQUEST is only acknowledged for the address the subscriber holds */
+	if (msg_type == DHCP_REQUEST) {
+		__u32 wanted = get_requested_ip((void *)pkt.dhcp, pkt.data_end);
+		if (wanted == 0)
+			wanted = pkt.dhcp->ciaddr;
+		if (wanted != assignment->allocated_ip) {
+			update_stat(STAT_FASTPATH_MISS);
+			return XDP_PASS;
+		}
+	}
 
 	/* CACHE HIT - Fast path! Generate reply in kernel */
 	update_stat(STAT_FASTPATH_HIT);
